@@ -1,3 +1,270 @@
+/-
+  Helper lemmas for the C02 round-trip theorems (core Lean only).
+-/
 import Ipv8.C02.Tables
+import Ipv8.C02.OldPayloads
+import Ipv8.C02.WF
+
 namespace Ipv8.C02
+open Ipv8
+
+/-! ### Except plumbing -/
+
+theorem bind_ok {α β} {x : Except Err α} {f : α → Except Err β} {b : β}
+    (h : (x >>= f) = .ok b) : ∃ a, x = .ok a ∧ f a = .ok b := by
+  cases x with
+  | error e => simp [bind, Except.bind] at h
+  | ok a => exact ⟨a, rfl, by simpa [bind, Except.bind] using h⟩
+
+@[simp] theorem ok_bind {α β} (a : α) (f : α → Except Err β) : ((Except.ok a : Except Err α) >>= f) = f a := rfl
+
+/-! ### big-endian integers -/
+
+theorem beEnc_length (w n : Nat) : (beEnc w n).length = w := by
+  induction w generalizing n with
+  | zero => rfl
+  | succ w ih => simp [beEnc, ih]
+
+theorem beDecAux_append (a b : Bytes) (acc : Nat) : beDecAux (a ++ b) acc = beDecAux b (beDecAux a acc) := by
+  induction a generalizing acc with
+  | nil => rfl
+  | cons x xs ih => simp [beDecAux, ih]
+
+theorem toNat_ofNat_mod (n : Nat) : (UInt8.ofNat (n % 256)).toNat = n % 256 := by
+  simp [UInt8.toNat_ofNat']
+
+theorem toNat_ofNat_lt {n : Nat} (h : n < 256) : (UInt8.ofNat n).toNat = n := by
+  simp [UInt8.toNat_ofNat']; omega
+
+theorem beDec_beEnc (w n : Nat) (h : n < 256 ^ w) : beDec (beEnc w n) = n := by
+  unfold beDec
+  induction w generalizing n with
+  | zero => simp [beEnc, beDecAux] at *; omega
+  | succ w ih =>
+    have h1 : n / 256 < 256 ^ w := by
+      rw [Nat.pow_succ] at h; exact Nat.div_lt_of_lt_mul (by omega)
+    simp [beEnc, beDecAux_append, ih _ h1, beDecAux]
+    omega
+
+theorem packUint_ok {w n : Nat} {b : Bytes} (h : packUint w n = .ok b) : b = beEnc w n ∧ n < 256 ^ w := by
+  unfold packUint at h
+  split at h
+  · cases h; exact ⟨rfl, by assumption⟩
+  · cases h
+
+/-! ### reading inside `p ++ (x ++ q)` at offset `p.length` -/
+
+theorem readAt_mid (p x q : Bytes) : readAt (p ++ (x ++ q)) p.length x.length = .ok x := by
+  unfold readAt
+  rw [if_pos (by simp)]
+  simp
+
+theorem readAt_mid' (p x q : Bytes) (off w : Nat) (ho : off = p.length) (hw : w = x.length) :
+    readAt (p ++ (x ++ q)) off w = .ok x := by
+  subst ho; subst hw; exact readAt_mid p x q
+
+theorem sliceChecked_mid' (p x q : Bytes) (off w : Nat) (ho : off = p.length) (hw : w = x.length) :
+    sliceChecked (p ++ (x ++ q)) off w = .ok x := by
+  subst ho; subst hw
+  unfold sliceChecked
+  rw [if_pos (by simp)]
+  simp
+
+theorem readUint_mid' (p q : Bytes) (off w n : Nat) (ho : off = p.length) (hn : n < 256 ^ w) :
+    readUint (p ++ (beEnc w n ++ q)) off w = .ok n := by
+  unfold readUint
+  rw [readAt_mid' p (beEnc w n) q off w ho (beEnc_length w n).symm]
+  simp [beDec_beEnc w n hn]
+
+/-! ### struct fields -/
+
+theorem fixedPad_self (b : Bytes) : fixedPad b.length b = b := by
+  simp [fixedPad]
+
+theorem sint_rt (w : Nat) (i : Int) (h : sintInRange w i = true) :
+    sintEnc w i < 256 ^ w ∧ sintDec w (sintEnc w i) = i := by
+  simp only [sintInRange, Bool.and_eq_true, decide_eq_true_eq] at h
+  obtain ⟨h1, h2⟩ := h
+  have hM : (0 : Int) < ((256 ^ w : Nat) : Int) := by
+    have : 0 < 256 ^ w := Nat.pow_pos (by omega)
+    omega
+  unfold sintEnc sintDec
+  by_cases hi : 0 ≤ i
+  · have e : i % ((256 ^ w : Nat) : Int) = i := Int.emod_eq_of_lt hi (by omega)
+    rw [e]
+    constructor
+    · omega
+    · have : (2 * i.toNat : Nat) < 256 ^ w := by omega
+      rw [if_pos this]; omega
+  · have e : i % ((256 ^ w : Nat) : Int) = i + ((256 ^ w : Nat) : Int) := by
+      rw [← Int.add_emod_right]
+      exact Int.emod_eq_of_lt (by omega) (by omega)
+    rw [e]
+    constructor
+    · omega
+    · have : ¬ (2 * (i + ((256 ^ w : Nat) : Int)).toNat < 256 ^ w) := by omega
+      rw [if_neg this]; omega
+
+theorem packField_rt {f : SField} {a : Atom} {x : Bytes} (h : packField f a = .ok x) (hw : wfField f a = true) :
+    x.length = f.size ∧ decodeField f x = a := by
+  cases f <;> cases a <;> simp only [packField] at h <;> try (cases h; done)
+  case uint.nat w n =>
+    obtain ⟨rfl, hn⟩ := packUint_ok h
+    simp [SField.size, beEnc_length, decodeField, beDec_beEnc w n hn]
+  case sint.int w i =>
+    split at h
+    · rename_i hr
+      cases h
+      obtain ⟨h1, h2⟩ := sint_rt w i hr
+      simp [SField.size, beEnc_length, decodeField, beDec_beEnc _ _ h1, h2]
+    · cases h
+  case bool.bool b =>
+    cases h
+    cases b <;> simp [SField.size, decodeField, beDec, beDecAux]
+  case char.bytes b =>
+    split at h
+    · rename_i hl
+      cases h
+      simp [SField.size, decodeField, hl]
+    · cases h
+  case fixed.bytes n b =>
+    cases h
+    simp only [wfField, beq_iff_eq] at hw
+    subst hw
+    simp [SField.size, decodeField, fixedPad_self]
+  case float.float w b =>
+    split at h
+    · rename_i hl
+      cases h
+      simp [SField.size, decodeField, hl]
+    · cases h
+
+theorem packFields_rt {fs : List SField} {as : List Atom} {b : Bytes}
+    (h : packFields fs as = .ok b) (hw : wfFields fs as = true) :
+    b.length = structSize fs ∧ decodeFields fs b = as ∧ as.length = fs.length := by
+  induction fs generalizing as b with
+  | nil =>
+    cases as with
+    | nil => simp [packFields] at h; subst h; simp [structSize, decodeFields]
+    | cons _ _ => simp [packFields] at h
+  | cons f fs ih =>
+    cases as with
+    | nil => simp [packFields] at h
+    | cons a as =>
+      simp only [packFields] at h
+      obtain ⟨x, hx, h1⟩ := bind_ok h
+      obtain ⟨y, hy, h2⟩ := bind_ok h1
+      cases h2
+      simp only [wfFields, Bool.and_eq_true] at hw
+      obtain ⟨e1, e2⟩ := packField_rt hx hw.1
+      obtain ⟨i1, i2, i3⟩ := ih hy hw.2
+      refine ⟨?_, ?_, ?_⟩
+      · simp [structSize, e1] at *; omega
+      · simp [decodeFields, ← e1, e2, i2]
+      · simp [i3]
+
+
+/-! ### readers at a named position `d = l ++ (x ++ r)` -/
+
+theorem readAt_at {d l x r : Bytes} {off w : Nat} (hd : d = l ++ (x ++ r)) (ho : off = l.length)
+    (hw : w = x.length) : readAt d off w = .ok x := by
+  subst hd; exact readAt_mid' l x r off w ho hw
+
+theorem sliceChecked_at {d l x r : Bytes} {off w : Nat} (hd : d = l ++ (x ++ r)) (ho : off = l.length)
+    (hw : w = x.length) : sliceChecked d off w = .ok x := by
+  subst hd; exact sliceChecked_mid' l x r off w ho hw
+
+theorem readUint_at {d l r : Bytes} {off w n : Nat} (hd : d = l ++ (beEnc w n ++ r)) (ho : off = l.length)
+    (hn : n < 256 ^ w) : readUint d off w = .ok n := by
+  subst hd; exact readUint_mid' l r off w n ho hn
+
+theorem readByte_at {d l r : Bytes} {off : Nat} (c : UInt8) (hd : d = l ++ ([c] ++ r)) (ho : off = l.length) :
+    readUint d off 1 = .ok c.toNat := by
+  unfold readUint
+  have e : readAt d off 1 = .ok [c] := readAt_at (x := [c]) hd ho rfl
+  rw [e]
+  simp [beDec, beDecAux]
+
+theorem pySlice_at {d l x r : Bytes} {a b : Nat} (hd : d = l ++ (x ++ r)) (ha : a = l.length)
+    (hb : b = l.length + x.length) : pySlice d a b = x := by
+  subst hd; subst ha; subst hb
+  simp [pySlice]
+
+theorem beEnc_one {n : Nat} (h : n < 256) : beEnc 1 n = [UInt8.ofNat n] := by
+  simp [beEnc, Nat.mod_eq_of_lt h]
+
+/-! ### bits -/
+
+def bitAtom (x : Bool) : Atom := .nat x.toNat
+
+theorem isBit_bool {a : Atom} (h : isBit a = true) : ∃ x : Bool, a = bitAtom x := by
+  cases a with
+  | nat n =>
+    match n, h with
+    | 0, _ => exact ⟨false, rfl⟩
+    | 1, _ => exact ⟨true, rfl⟩
+  | _ => simp [isBit] at h
+
+theorem bits_tbl : ∀ x7 x6 x5 x4 x3 x2 x1 x0 : Bool,
+    bitsByte [bitAtom x7, bitAtom x6, bitAtom x5, bitAtom x4, bitAtom x3, bitAtom x2, bitAtom x1, bitAtom x0] < 256 ∧
+    bitsOfByte (bitsByte [bitAtom x7, bitAtom x6, bitAtom x5, bitAtom x4, bitAtom x3, bitAtom x2, bitAtom x1, bitAtom x0])
+      = [bitAtom x7, bitAtom x6, bitAtom x5, bitAtom x4, bitAtom x3, bitAtom x2, bitAtom x1, bitAtom x0] := by
+  decide
+
+theorem bits_rt {as : List Atom} (hl : as.length = 8) (hb : as.all isBit = true) :
+    bitsByte as < 256 ∧ bitsOfByte (bitsByte as) = as := by
+  match as, hl with
+  | [a7, a6, a5, a4, a3, a2, a1, a0], _ =>
+    simp only [List.all_cons, List.all_nil, Bool.and_true, Bool.and_eq_true] at hb
+    obtain ⟨h7, h6, h5, h4, h3, h2, h1, h0⟩ := hb
+    obtain ⟨x7, rfl⟩ := isBit_bool h7
+    obtain ⟨x6, rfl⟩ := isBit_bool h6
+    obtain ⟨x5, rfl⟩ := isBit_bool h5
+    obtain ⟨x4, rfl⟩ := isBit_bool h4
+    obtain ⟨x3, rfl⟩ := isBit_bool h3
+    obtain ⟨x2, rfl⟩ := isBit_bool h2
+    obtain ⟨x1, rfl⟩ := isBit_bool h1
+    obtain ⟨x0, rfl⟩ := isBit_bool h0
+    exact bits_tbl x7 x6 x5 x4 x3 x2 x1 x0
+
+/-! ### arrays -/
+
+theorem packElem_rt {k : AKind} {a : Atom} {x : Bytes} (h : packElem k a = .ok x) (hw : wfElem k a = true) :
+    x.length = k.size ∧ decodeElem k x = a := by
+  cases k <;> cases a <;> simp only [packElem] at h <;> try (cases h; done)
+  case bool.bool b =>
+    cases h
+    cases b <;> simp [AKind.size, decodeElem, beDec, beDecAux]
+  case bool.nat n => simp [wfElem] at hw
+  case q.int i =>
+    split at h
+    · rename_i hr
+      cases h
+      obtain ⟨h1, h2⟩ := sint_rt 8 i hr
+      simp [AKind.size, beEnc_length, decodeElem, beDec_beEnc _ _ h1, h2]
+    · cases h
+  case d.float b =>
+    split at h
+    · rename_i hl
+      cases h
+      simp [AKind.size, decodeElem, hl]
+    · cases h
+
+theorem packElems_rt {k : AKind} {as : List Atom} {b : Bytes}
+    (h : packElems k as = .ok b) (hw : as.all (wfElem k) = true) :
+    b.length = as.length * k.size ∧ decodeElems k as.length b = as := by
+  induction as generalizing b with
+  | nil => simp [packElems] at h; subst h; simp [decodeElems]
+  | cons a as ih =>
+    simp only [packElems] at h
+    obtain ⟨x, hx, h1⟩ := bind_ok h
+    obtain ⟨y, hy, h2⟩ := bind_ok h1
+    cases h2
+    simp only [List.all_cons, Bool.and_eq_true] at hw
+    obtain ⟨e1, e2⟩ := packElem_rt hx hw.1
+    obtain ⟨i1, i2⟩ := ih hy hw.2
+    constructor
+    · simp [e1, i1, Nat.add_mul]; omega
+    · simp [decodeElems, ← e1, e2, i2]
+
 end Ipv8.C02
